@@ -19,7 +19,8 @@ RULE = ("ALL configurations depth 1-6 x width 1-4 with depth*width <= 24 x 5 sto
         "path, bytes) under the store root equals the set computed by an independent implementation of the README "
         "layout (shard = depth tokens of width characters + remainder; H = store algorithm over UTF-8), pid ref == "
         "cid exactly, cid list == 'pid\\n' lines, hashstore.yaml (parsed) carries the documented keys/values. "
-        "distinct_nontrivial = distinct (depth, width, algorithm, draw).")
+        "A sample of the grid is re-run in a child interpreter whose preferred encoding is ASCII (the layout is a wire "
+        "format and must not depend on the locale). distinct_nontrivial = distinct (depth, width, algorithm, draw).")
 ASSUMPTIONS = ["README 'What does HashStore look like?' is the layout specification"]
 EXHAUSTIVE = {"quick": True, "thorough": True}
 
@@ -28,23 +29,64 @@ GRID = [(d, w, a) for d in range(1, 7) for w in range(1, 5) if d * w <= 24 for a
 
 def shards(tier, seed):
     draws = 10 if tier == "quick" else 100
-    return [(c, draws, s) for c, s in zip(chunk(GRID, ncpu()), split_seeds(seed * 1000 + 15, ncpu()))]
+    out = [(c, draws, s) for c, s in zip(chunk(GRID, ncpu()), split_seeds(seed * 1000 + 15, ncpu()))]
+    # the interchange format must not depend on the process locale: a slice of the grid is re-run in a child
+    # interpreter whose preferred encoding is ASCII (LC_ALL=C, UTF-8 mode and locale coercion switched off)
+    rng = random.Random(seed * 1000 + 151)
+    out.append((rng.sample(GRID, 12 if tier == "quick" else 60), 3 if tier == "quick" else 10, seed + 152, "spawn-ascii-locale"))
+    return out
 
 
 def min_required(tier):
     return {"configurations": len(GRID), "files_compared": 2000}
 
 
-def run_shard(cfgs, draws, sub_seed):
+def run_in_ascii_locale(cfgs, draws, sub_seed):
+    import json
+    import subprocess
+    import sys
+    from ..common import VERIF_ROOT, SRC
+    res = ShardResult()
+    code = ("import sys, json; sys.path.insert(0, %r); from hsverif.common import load_repo; load_repo(); "
+            "from hsverif.props import C15; r = C15.run_shard(%r, %d, %d, 'inside-ascii-locale'); "
+            "print('RESULT ' + json.dumps({'ev': r.evaluations, 'distinct': sorted(r.distinct), 'viol': r.violations, "
+            "'counters': {k: v for k, v in r.counters.items() if isinstance(v, int)}, 'enc': __import__('locale').getpreferredencoding(False)}))"
+            % (VERIF_ROOT, [list(c) for c in cfgs], draws, sub_seed))
+    env = dict(os.environ, LC_ALL="C", LANG="C", PYTHONUTF8="0", PYTHONCOERCECLOCALE="0", HSVERIF_SRC=SRC, PYTHONIOENCODING="ascii:backslashreplace")
+    p = subprocess.run([sys.executable, "-c", code], capture_output=True, text=True, timeout=900, env=env)
+    line = [ln for ln in p.stdout.splitlines() if ln.startswith("RESULT ")]
+    if p.returncode != 0 or not line:
+        res.inconclusive.append("child interpreter in the ASCII locale failed: " + (p.stderr or "")[-400:])
+        return res
+    d = json.loads(line[-1][7:])
+    if d["enc"].lower().replace("-", "") in ("utf8",):
+        res.notes.append("the child interpreter still reported UTF-8 as preferred encoding; the locale slice adds nothing on this platform")
+    res.evaluations = d["ev"]
+    res.distinct = {"ascii-locale:" + x for x in d["distinct"]}
+    for sig, wit in d["viol"]:
+        sig["locale"] = "ascii"
+        res.violation(sig, wit)
+    res.count("evaluations_in_ascii_locale", d["ev"])
+    for k, v in d["counters"].items():
+        res.count(k, v)
+    return res
+
+
+def run_shard(cfgs, draws, sub_seed, locale_mode=None):
+    if locale_mode == "spawn-ascii-locale":
+        return run_in_ascii_locale(cfgs, draws, sub_seed)
     res = ShardResult()
     FHS = load_repo()["FileHashStore"]
     rng = random.Random(sub_seed)
     scratch = new_scratch("c15")
     try:
         for (d, w, a) in cfgs:
-            res.count("configurations")
+            if not locale_mode:
+                res.count("configurations")
             for r in range(draws):
                 ns = rng.choice([DEFAULT_NS, "urn:x:" + adversarial_id(rng, 8).replace("\x00", "")])
+                if locale_mode:
+                    ns = DEFAULT_NS     # (hashstore.yaml is read back by the harness in the child's locale)
                 lay = Layout(d, w, a, ns)
                 root = os.path.join(scratch, "s")
                 pids = []
